@@ -105,9 +105,11 @@ def run(ctx):
             pb.span, key=pb.name + '|L0')
     sb_ = ctx.anchor(common.READER + 'string', 'reader primitive')
     if sb_ is not None:
-        cs = [c for c in q.calls(sb_) if c.callee.startswith(('byteorder::', 'std::io::Read::'))]
-        names = [c.callee.split('::')[-1] for c in cs]
-        ok = names == ['read_u16', 'read_exact'] and any('LittleEndian' in a for a in cs[0].fn.get('args', []))
+        # the length is the little-endian WORD, read directly or through the sibling primitive word() (itself checked above)
+        cs = [c for c in q.calls(sb_) if c.callee.startswith(('byteorder::', 'std::io::Read::')) or q.callee_name(c).startswith(common.READER)]
+        names = [q.callee_name(c).split('::')[-1] for c in cs]
+        ok = (names == ['read_u16', 'read_exact'] and any('LittleEndian' in a for a in cs[0].fn.get('args', []))) or \
+            (names == ['word', 'read_exact'] and is_param(q.arg_terms(cs[0])[0], 1))
         if ok:
             buf = q.arg_terms(cs[1])[1]
             ln = buf[2][1] if buf[0] == 'call' and buf[1].endswith('from_elem') else None
